@@ -148,6 +148,8 @@ class Executor:
         self.frames = {}
         self.root_types = {}
         self.discharged = 0
+        self.no_merge = False          # keep every path separate (used for path-wise summaries)
+        self.abstract_defs = set()     # crate bodies deliberately kept abstract (layered proofs)
 
     # ================================================================ naming / symbols
     def fresh(self, base):
@@ -982,7 +984,7 @@ class Executor:
         while pending:
             bb = min(pending, key=lambda b: rpo.get(b, 1 << 30))
             states = pending.pop(bb)
-            if bb not in cfg.tail and len(states) > 1:
+            if bb not in cfg.tail and len(states) > 1 and not self.no_merge:
                 states = self.merge_groups(states)
             for st in states:
                 if bb in cfg.loop_headers and not (first and bb == header):
@@ -1575,6 +1577,10 @@ class Executor:
             res = self.summaries.apply(ctx, st)
             if res is not None:
                 return res
+        if r["kind"] == "body" and r["rec"]["id"] in self.abstract_defs:
+            r2 = dict(r)
+            r2["trait"] = r.get("trait") or r["rec"]["id"]
+            return self.abstract_call(st, fr, callee, r2, args, dest_ty, span)
         if r["kind"] == "body":
             res = self.inline(st, fr, r["rec"], r["subst"], args, span)
             if res is not None:
@@ -1612,7 +1618,7 @@ class Executor:
             for r in [r for r in s2.mem if r[0] == "L" and r[1] == f2.fid]:
                 del s2.mem[r]
             res.append((s2, v))
-        if len(res) > 1 and all(len(s2.trace) == base_len for s2, _ in res):
+        if len(res) > 1 and not self.no_merge and all(len(s2.trace) == base_len for s2, _ in res):
             # several event-free return paths of a helper: merge them (if-then-else)
             ms, v = self.merge_states([s2 for s2, _ in res], [x for _, x in res])
             return [(ms, v)]
